@@ -45,10 +45,12 @@ def documents(draw: Any, kind: str = 'function', fmt_family: str = 'markup', max
     def runs() -> List[Dict[str, Any]]:
         out = []
         for i in range(draw(st.integers(1, 4))):
-            k = draw(st.sampled_from(['text', 'text', 'em', 'strong', 'code']))
+            # 'xref': a cross-reference with a label of its own; the same target may be referred to several times, each time with
+            # another label
+            k = draw(st.sampled_from(['text', 'text', 'em', 'strong', 'code', 'xref']))
             if out and out[-1]['k'] == k == 'text':
                 k = 'em'
-            out.append({'k': k, 'words': c.words(draw(st.integers(1, 3))),
+            out.append({'k': k, 'words': c.words(draw(st.integers(1, 3))), 'target': draw(st.sampled_from(['Engine', 'Engine', 'Engine.start'])) if k == 'xref' else None,
                         # no blank between this run and the one before it: markup inside a word, markup next to markup
                         'glue': bool(out) and (k != 'text' or out[-1]['k'] != 'text') and draw(st.integers(0, 3)) == 0})
         return out
@@ -209,10 +211,10 @@ def _inline(runs: List[Dict[str, Any]], fmt: str) -> str:
         w = ' '.join(r['words'])
         k = r['k']
         if fmt == 'epytext':
-            piece = {'text': w, 'em': 'I{%s}' % w, 'strong': 'B{%s}' % w, 'code': 'C{%s}' % w}[k]
+            piece = {'text': w, 'em': 'I{%s}' % w, 'strong': 'B{%s}' % w, 'code': 'C{%s}' % w, 'xref': 'L{%s <%s>}' % (w, r.get('target'))}[k]
             sep = '' if r.get('glue') else ' '
         else:
-            piece = {'text': w, 'em': '*%s*' % w, 'strong': '**%s**' % w, 'code': '``%s``' % w}[k]
+            piece = {'text': w, 'em': '*%s*' % w, 'strong': '**%s**' % w, 'code': '``%s``' % w, 'xref': '`%s <%s>`' % (w, r.get('target'))}[k]
             # reST needs a boundary around inline markup: the escaped blank is one that leaves no trace
             sep = '\\ ' if r.get('glue') else ' '
         text += (sep if i else '') + piece
